@@ -40,7 +40,8 @@ namespace occa {
         }
 
         valid = (
-          hasValidInit()
+          !(hasInner && hasOuter)
+          && hasValidInit()
           && hasValidCheck()
           && hasValidUpdate()
         );
